@@ -578,8 +578,21 @@ class TaxBenefitSystem:
                 "_parameters_at_instant_cache",
                 "variables",
                 "open_api_config",
+                "entities",
+                "person_entity",
+                "group_entities",
             ):
                 new_dict[key] = value
+
+        # Entities resolve variables through their tax and benefit system, so
+        # they can't be shared: the copy gets its own (see the constructor).
+        new_dict["entities"] = [copy.copy(entity) for entity in self.entities]
+        new_dict["person_entity"] = next(
+            entity for entity in new_dict["entities"] if entity.is_person
+        )
+        new_dict["group_entities"] = [
+            entity for entity in new_dict["entities"] if not entity.is_person
+        ]
         for entity in new_dict["entities"]:
             entity.set_tax_benefit_system(new)
 
